@@ -357,6 +357,26 @@ func c10Syscalls(w *core.Worker, tx c10Tx, base string, run func(string, []strin
 		w.Case(core.Digest(txDigest, at), true)
 	}
 	w.Count("runs_with_the_rename_refused", int64(refused))
+	// a write of the commit fails (ENOSPC: the disk is full, a quota or a file-size limit is hit): the process survives and
+	// may report the failure or not — either way every table holds its complete old or its complete new contents, and a
+	// run that reports success must have written the new ones
+	failed := 0
+	for n := 1; n <= maxW; n++ {
+		d := filepath.Join(w.Work, "wcrash")
+		_ = os.RemoveAll(d)
+		copyDir(base, d)
+		c10Link(d, tx.links)
+		c10Stale(d, tx.stale)
+		p := run(d, []string{"GOMAXPROCS=1"}, []string{"strace", "-f", "-o", "/dev/null", "-e", "trace=write", "-e", fmt.Sprintf("inject=write:error=ENOSPC:when=%d", n)})
+		if p.Code == 0 && !strings.Contains(p.Stderr, "no space left") {
+			// the failing write was not one of the commit's (or did not happen in this thread): judged all the same
+			w.Count("write_error_runs_that_still_succeeded", 1)
+		}
+		failed++
+		judge(d, fmt.Sprintf("syscall:write-error#%d", n))
+		w.Case(core.Digest(txDigest, fmt.Sprintf("write-error#%d", n)), true)
+	}
+	w.Count("runs_with_a_failing_write", int64(failed))
 }
 
 // c10Unencodable: the new contents of one table of the transaction cannot be written in the table's format (a column
